@@ -97,6 +97,19 @@ func (p *Parser) Parse(source string) (Node, error) {
 		return nil, fmt.Errorf("parsing error: %w", err)
 	}
 
+	// parseOuterTemplate also returns when it meets a closing tag, so that the
+	// parser of the enclosing tag can consume it. At the top level there is no
+	// enclosing tag: the closing tag is stray and the rest of the template
+	// would be dropped silently.
+	if p.tokenIndex < len(p.tokens) && p.tokens[p.tokenIndex].Type != TOKEN_EOF {
+		stray := p.tokens[p.tokenIndex]
+		name := ""
+		if p.tokenIndex+1 < len(p.tokens) && p.tokens[p.tokenIndex+1].Type == TOKEN_NAME {
+			name = p.tokens[p.tokenIndex+1].Value
+		}
+		return nil, fmt.Errorf("parsing error: unexpected '%s' tag at line %d", name, stray.Line)
+	}
+
 	// Let every top-level macro know the macros defined next to it
 	var macros []*MacroNode
 	for _, node := range nodes {
